@@ -1,0 +1,165 @@
+//go:build verif
+// +build verif
+
+package raft
+
+// Hooks for the verification harness in /verif (compiled only with -tags verif).
+
+import (
+	"os"
+	"strconv"
+	"sync"
+	"time"
+
+	pb "github.com/marekgalovic/anndb/protobuf"
+
+	etcdRaft "github.com/coreos/etcd/raft"
+)
+
+var verifLoopChans sync.Map // *RaftGroup -> chan func(uint64)
+
+// verifLoopC is selected on by the ready-loop; closures posted to it run on the
+// ready-loop goroutine as one more iteration of its select.
+func (this *RaftGroup) verifLoopC() chan func(uint64) {
+	if c, ok := verifLoopChans.Load(this); ok {
+		return c.(chan func(uint64))
+	}
+	c, loaded := verifLoopChans.LoadOrStore(this, make(chan func(uint64), 64))
+	if !loaded {
+		this.verifStartPumps(c.(chan func(uint64)))
+	}
+	return c.(chan func(uint64))
+}
+
+// verifStartPumps: real server processes launched by the harness may ask for
+// faster logical time / frequent snapshots through the environment. Unset = no
+// effect.
+func (this *RaftGroup) verifStartPumps(c chan func(uint64)) {
+	if ms, _ := strconv.Atoi(os.Getenv("VERIF_EXTRA_TICK_MS")); ms > 0 {
+		go func() {
+			t := time.NewTicker(time.Duration(ms) * time.Millisecond)
+			defer t.Stop()
+			for {
+				select {
+				case <-t.C:
+					select {
+					case c <- func(uint64) { this.raft.Tick() }:
+					default:
+					}
+				case <-this.ctx.Done():
+					return
+				}
+			}
+		}()
+	}
+	if ms, _ := strconv.Atoi(os.Getenv("VERIF_SNAPSHOT_EVERY_MS")); ms > 0 {
+		go func() {
+			t := time.NewTicker(time.Duration(ms) * time.Millisecond)
+			defer t.Stop()
+			for {
+				select {
+				case <-t.C:
+					select {
+					case c <- func(applied uint64) { this.trySnapshot(applied, 0) }:
+					default:
+					}
+				case <-this.ctx.Done():
+					return
+				}
+			}
+		}()
+	}
+}
+
+// VerifOnLoop runs fn on the ready-loop goroutine (with the loop's
+// lastAppliedIdx) and waits for it; false if the group stopped first.
+func (this *RaftGroup) VerifOnLoop(fn func(lastApplied uint64)) bool {
+	done := make(chan struct{})
+	select {
+	case this.verifLoopC() <- func(a uint64) { defer close(done); fn(a) }:
+	case <-this.ctx.Done():
+		return false
+	case <-time.After(10 * time.Second):
+		return false
+	}
+	select {
+	case <-done:
+		return true
+	case <-this.ctx.Done():
+		return false
+	case <-time.After(30 * time.Second):
+		return false
+	}
+}
+
+// VerifPost queues fn for the ready-loop without waiting.
+func (this *RaftGroup) VerifPost(fn func(lastApplied uint64)) bool {
+	select {
+	case this.verifLoopC() <- fn:
+		return true
+	default:
+		return false
+	}
+}
+
+func (this *RaftGroup) VerifTick(n int) bool {
+	return this.VerifOnLoop(func(uint64) {
+		for i := 0; i < n; i++ {
+			this.raft.Tick()
+		}
+	})
+}
+
+func (this *RaftGroup) VerifCampaign() {
+	this.VerifPost(func(uint64) { go this.raft.Campaign(this.ctx) })
+}
+
+// VerifSnapshotNow runs the real trySnapshot(lastApplied, 0) on the loop.
+func (this *RaftGroup) VerifSnapshotNow() (err error, ran bool) {
+	ran = this.VerifOnLoop(func(applied uint64) { err = this.trySnapshot(applied, 0) })
+	return
+}
+
+func (this *RaftGroup) VerifStatus() etcdRaft.Status { return this.raft.Status() }
+
+func (this *RaftGroup) VerifLastApplied() (uint64, bool) {
+	var a uint64
+	ok := this.VerifOnLoop(func(applied uint64) { a = applied })
+	return a, ok
+}
+
+func (this *RaftGroup) VerifStopped() bool {
+	select {
+	case <-this.ctx.Done():
+		return true
+	default:
+		return false
+	}
+}
+
+// VerifKill stops the group the way a process death would look to its peers:
+// no goodbye, the raft node goroutine is stopped and the group unregistered.
+func (this *RaftGroup) VerifKill() {
+	this.ctxCancel()
+	go this.raft.Stop()
+	this.transport.removeGroup(this.id)
+	verifLoopChans.Delete(this)
+}
+
+// VerifSetPeerClient injects an in-memory client used for raft messages to nodeId.
+func (this *RaftTransport) VerifSetPeerClient(nodeId uint64, c pb.RaftTransportClient) {
+	this.nodeClientsMu.Lock()
+	defer this.nodeClientsMu.Unlock()
+	if c == nil {
+		delete(this.nodeClients, nodeId)
+	} else {
+		this.nodeClients[nodeId] = c
+	}
+}
+
+func (this *RaftTransport) VerifHasGroup(id [16]byte) bool {
+	this.groupsMu.RLock()
+	defer this.groupsMu.RUnlock()
+	_, ok := this.groups[id]
+	return ok
+}
